@@ -56,3 +56,162 @@ Theorem C08_optional_word_is_argument : forall cfg orc root s r,
   parse_non_option cfg orc root s r = add_args orc [ps_arg s] s r.
 Proof. exact C08_unknown_word_optional. Qed.
 Print Assumptions C08_optional_word_is_argument.
+
+(* ---- added by bin/mkprops (batch 2) ---- *)
+From GoFlags Require Import Base.Str Base.Utf8 Golib.Strings Golib.Strconv Model.Types Model.Tag Model.Scan Model.Lookup Model.Convert Model.State Model.Closest Model.Help Model.Parse Model.Ini Model.Complete.
+From GoFlags Require Import Proofs.ScopeSpec Proofs.SpellSpec.
+
+(* an ancestor's option is still found - the very same option - after a command word, unless the child redeclares the name *)
+Theorem C08_ancestor_option_stays :
+  forall (delim : str) (root : command) (path : list nat) (i : nat) (cur sub : command) 
+           (n : str) (oc : octx),
+         cmd_at root path = Some cur ->
+         nth_error (cmd_subs cur) i = Some sub ->
+         (find_last (lk_long (make_lookup delim root path)) n = Some oc ->
+          find_last (snd (fill_opts delim sub)) n = None ->
+          find_last (lk_long (make_lookup delim root (path ++ [i]))) n = Some oc) /\
+         (find_last (lk_short (make_lookup delim root path)) n = Some oc ->
+          find_last (fst (fill_opts delim sub)) n = None ->
+          find_last (lk_short (make_lookup delim root (path ++ [i]))) n = Some oc).
+Proof. exact @C08_ancestor_option_in_child_lookup. Qed.
+Print Assumptions C08_ancestor_option_stays.
+
+Theorem C08_child_declaration_shadows :
+  forall (delim : str) (root : command) (path : list nat) (i : nat) (cur sub : command) 
+           (n : str) (oc' : octx),
+         cmd_at root path = Some cur ->
+         nth_error (cmd_subs cur) i = Some sub ->
+         (find_last (snd (fill_opts delim sub)) n = Some oc' ->
+          find_last (lk_long (make_lookup delim root (path ++ [i]))) n = Some oc') /\
+         (find_last (fst (fill_opts delim sub)) n = Some oc' ->
+          find_last (lk_short (make_lookup delim root (path ++ [i]))) n = Some oc').
+Proof. exact @C08_child_shadows. Qed.
+Print Assumptions C08_child_declaration_shadows.
+
+(* `app --verbose add` and `app add --verbose` are equivalent when --verbose belongs to app and add does not redeclare it *)
+Theorem C08_flag_commutes_with_command_word :
+  forall (cfg : pconfig) (orc : oracles) (root : command) (help_text : rt -> str) 
+           (s1 s2 : pst) (r : rt) (n w : str) (rest : list str) (oc : octx) (i : nat) 
+           (cur sub : command),
+         ps_sim s1 s2 ->
+         ps_pos s1 = [] ->
+         ps_ret s1 = [] ->
+         ps_lk s1 = make_lookup (pc_nsdelim cfg) root (ps_cmd s1) ->
+         cmd_at root (ps_cmd s1) = Some cur ->
+         nth_error (cmd_subs cur) i = Some sub ->
+         find_last (lk_cmds (ps_lk s1)) w = Some i ->
+         argument_is_option w = false ->
+         ~ (po_passdd (pc_opts cfg) = true /\ w = s2l "--") ->
+         n <> [] ->
+         hd 0 n <> 45 ->
+         ~ In 61 n ->
+         find_last (lk_long (ps_lk s1)) n = Some oc ->
+         find_last (snd (fill_opts (pc_nsdelim cfg) sub)) n = None ->
+         can_argument (oc_opt oc) = false ->
+         o_is_help (oc_opt oc) = false ->
+         ps_args s1 = (s2l "--" ++ n) :: w :: rest ->
+         ps_args s2 = w :: (s2l "--" ++ n) :: rest ->
+         let tok := s2l "--" ++ n in
+         let path' := ps_cmd s1 ++ [i] in
+         scope_rel cfg root w i (two_steps cfg orc root help_text s1 r) (two_steps cfg orc root help_text s2 r) /\
+         (forall r1 : rt,
+          opt_set orc (pc_nsdelim cfg) help_text oc None r = Ok (r1, None) ->
+          res_eqv (two_steps cfg orc root help_text s1 r) (two_steps cfg orc root help_text s2 r) /\
+          two_steps cfg orc root help_text s1 r =
+          Ok
+            (Continue (fill_parse_state cfg root (ps_with_args s1 w rest) path') (set_active r1 (ps_cmd s1) i))) /\
+         (forall (r1 : rt) (e : err),
+          opt_set orc (pc_nsdelim cfg) help_text oc None r = Ok (r1, Some e) ->
+          two_steps cfg orc root help_text s1 r =
+          Ok (Break (ps_with_err (ps_with_args s1 tok (w :: rest)) (Some (wrap_marshal cfg oc e))) r1) /\
+          two_steps cfg orc root help_text s2 r =
+          Ok
+            (Break
+               (ps_with_err (fill_parse_state cfg root (ps_with_args s2 tok rest) path')
+                  (Some (wrap_marshal cfg oc e))) (set_active r1 (ps_cmd s1) i))).
+Proof. exact @C08_commute_flag_and_command. Qed.
+Print Assumptions C08_flag_commutes_with_command_word.
+
+Theorem C08_short_flag_commutes_with_command_word :
+  forall (cfg : pconfig) (orc : oracles) (root : command) (help_text : rt -> str) 
+           (s1 s2 : pst) (r : rt) (c : N) (w : str) (rest : list str) (oc : octx) (i : nat) 
+           (cur sub : command),
+         ps_sim s1 s2 ->
+         ps_pos s1 = [] ->
+         ps_ret s1 = [] ->
+         ps_lk s1 = make_lookup (pc_nsdelim cfg) root (ps_cmd s1) ->
+         cmd_at root (ps_cmd s1) = Some cur ->
+         nth_error (cmd_subs cur) i = Some sub ->
+         find_last (lk_cmds (ps_lk s1)) w = Some i ->
+         argument_is_option w = false ->
+         ~ (po_passdd (pc_opts cfg) = true /\ w = s2l "--") ->
+         c < 128 ->
+         c <> 45 ->
+         find_last (lk_short (ps_lk s1)) [c] = Some oc ->
+         find_last (fst (fill_opts (pc_nsdelim cfg) sub)) [c] = None ->
+         can_argument (oc_opt oc) = false ->
+         o_is_help (oc_opt oc) = false ->
+         ps_args s1 = [45; c] :: w :: rest ->
+         ps_args s2 = w :: [45; c] :: rest ->
+         let tok := [45; c] in
+         let path' := ps_cmd s1 ++ [i] in
+         scope_rel cfg root w i (two_steps cfg orc root help_text s1 r) (two_steps cfg orc root help_text s2 r) /\
+         (forall r1 : rt,
+          opt_set orc (pc_nsdelim cfg) help_text oc None r = Ok (r1, None) ->
+          res_eqv (two_steps cfg orc root help_text s1 r) (two_steps cfg orc root help_text s2 r) /\
+          two_steps cfg orc root help_text s1 r =
+          Ok
+            (Continue (fill_parse_state cfg root (ps_with_args s1 w rest) path') (set_active r1 (ps_cmd s1) i))) /\
+         (forall (r1 : rt) (e : err),
+          opt_set orc (pc_nsdelim cfg) help_text oc None r = Ok (r1, Some e) ->
+          two_steps cfg orc root help_text s1 r =
+          Ok (Break (ps_with_err (ps_with_args s1 tok (w :: rest)) (Some (wrap_marshal cfg oc e))) r1) /\
+          two_steps cfg orc root help_text s2 r =
+          Ok
+            (Break
+               (ps_with_err (fill_parse_state cfg root (ps_with_args s2 tok rest) path')
+                  (Some (wrap_marshal cfg oc e))) (set_active r1 (ps_cmd s1) i))).
+Proof. exact @C08_commute_short_flag_and_command. Qed.
+Print Assumptions C08_short_flag_commutes_with_command_word.
+
+Theorem C08_set_and_switch_commute :
+  forall (orc : oracles) (delim : str) (ht : rt -> str) (oc : octx) (arg : option str) 
+           (r r1 : rt) (e : option err) (p : list nat) (i : nat),
+         o_is_help (oc_opt oc) = false ->
+         opt_set orc delim ht oc arg r = Ok (r1, e) ->
+         opt_set orc delim ht oc arg (set_active r p i) = Ok (set_active r1 p i, e).
+Proof. exact @C08_set_active_commutes. Qed.
+Print Assumptions C08_set_and_switch_commute.
+
+(* a required command that is missing fails with ErrCommandRequired, an unrecognised word with ErrUnknownCommand; nothing is executed *)
+Theorem C08_missing_or_unknown_command :
+  forall (cfg : pconfig) (root : command) (s : pst) (r : rt),
+         ps_err s = None ->
+         let c := cur_cmd root s in
+         let out := parse_finish cfg root s r in
+         (cmd_subs c <> [] ->
+          c_sub_optional (cmd_info c) = false ->
+          let e := estimate_command root s in
+          pr_err (snd out) = Some e /\
+          pr_ret (snd out) = Some (ps_arg s :: ps_args s) /\
+          match ps_ret s with
+          | [] => exists m : str, e = EFlags ErrCommandRequired m
+          | _ :: _ => exists m : str, e = EFlags ErrUnknownCommand m
+          end /\
+          fst out = print_error cfg r e /\
+          rt_vals (fst out) = rt_vals r /\
+          rt_fl (fst out) = rt_fl r /\
+          rt_active (fst out) = rt_active r /\
+          l_exec (rt_logs (fst out)) = l_exec (rt_logs r) /\
+          l_calls (rt_logs (fst out)) = l_calls (rt_logs r) /\
+          l_unknown (rt_logs (fst out)) = l_unknown (rt_logs r) /\
+          l_out (rt_logs (fst out)) =
+          l_out (rt_logs r) ++ (if po_print (pc_opts cfg) then [(false, err_text e ++ [10])] else [])) /\
+         (cmd_subs c = [] \/ c_sub_optional (cmd_info c) = true ->
+          pr_err (snd out) = match c_exec (cmd_info c) with
+                             | ExErr m => Some (EForeign m)
+                             | _ => None
+                             end /\ (forall (t : errty) (m : str), pr_err (snd out) <> Some (EFlags t m))).
+Proof. exact @C08_required_command_errors. Qed.
+Print Assumptions C08_missing_or_unknown_command.
+
